@@ -97,3 +97,91 @@ def judge_traces(ctx, trs, need_sqrt=0, owns_k1=False):
         else:
             ctx.nontrivial.add("".join(tr["seq"]))
     return verdicts
+
+
+# ---------------------------------------------------------------------------------------------
+# composition strata of the delta-max search (the regimes of spec/Patterning.tla Regime/Family and the counts at which
+# the sliding and splitting loops change shape), for the recorded-trace phases: random sequences almost never have
+# 1..3 charges of one sign against 50, exactly 12..17 neutral residues, or two neighbouring compositions of one length
+def composition_grid(rng, count):
+    out = []
+    while len(out) < count:
+        k = len(out) % 8
+        if k == 0:                                   # no neutrals, lopsided: the short block slides through a long one
+            m = rng.randint(1, 8); M = rng.randint(m, min(110, 14 * m)); c = (m, M, 0)
+        elif k == 1:                                 # no neutrals, any ratio
+            m = rng.randint(1, 30); M = rng.randint(m, 100); c = (m, M, 0)
+        elif k == 2:                                 # few neutrals (general regime), few minority charges
+            c = (rng.randint(0, 3), rng.randint(5, 80), rng.randint(1, 11))
+        elif k == 3:                                 # 12..17 neutrals: still the general regime
+            c = (rng.randint(1, 3), rng.randint(20, 100), rng.randint(12, 17))
+        elif k == 4:                                 # 18 and more neutrals: at most six at either end
+            c = (rng.randint(0, 6), rng.randint(5, 80), rng.randint(18, 40))
+        elif k == 5:                                 # one charge type with neutrals (either block may be the longer one)
+            c = (0, rng.randint(1, 60), rng.randint(1, 60))
+        elif k == 6:                                 # balanced
+            p = rng.randint(2, 40); c = (p, p + rng.randint(0, 2), rng.randint(0, 30))
+        else:                                        # neighbours of one length above 100 residues
+            N = rng.randint(101, 260); p = rng.randint(5, N // 3); n = rng.randint(5, N // 3)
+            out += [(p, n, N - p - n), (p + 1, n, N - p - n - 1), (p, n + 1, N - p - n - 1)]
+            continue
+        out.append(c if rng.random() < 0.5 else (c[1], c[0], c[2]))
+    return out[:count]
+
+
+def arrange(comp, rng):
+    """A charge pattern of composition comp: shuffled, or strongly segregated but off the documented family."""
+    p, n, z = comp
+    r = rng.random()
+    if r < 0.6:
+        x = [1] * p + [-1] * n + [0] * z
+        rng.shuffle(x)
+        return x
+    if r < 0.8:                                      # all neutrals at one end, the shorter charged block a few residues in
+        a, b = ((1, p), (-1, n)) if p <= n else ((-1, n), (1, p))
+        k = rng.randint(0, min(6, b[1]))
+        x = [0] * z + [b[0]] * k + [a[0]] * a[1] + [b[0]] * (b[1] - k)
+        return x if rng.random() < 0.5 else x[::-1]
+    s = rng.randint(0, z); e = rng.randint(0, z - s)
+    return [0] * s + [1] * p + [0] * (z - s - e) + [-1] * n + [0] * e
+
+
+def family_member(comp, rng):
+    """One member of Family(p, n, z) of spec/Patterning.tla, drawn at random."""
+    p, n, z = comp
+    if p + n == 0:
+        return [0] * z
+    if p == 0 or n == 0:
+        c, k = (-1, n) if p == 0 else (1, p)
+        if z > k:
+            pos = rng.randint(0, z); return [0] * pos + [c] * k + [0] * (z - pos)
+        pos = rng.randint(0, k); return [c] * pos + [0] * z + [c] * (k - pos)
+    if z == 0:
+        if p > n:
+            pos = rng.randint(0, p); return [1] * pos + [-1] * n + [1] * (p - pos)
+        pos = rng.randint(0, n); return [-1] * pos + [1] * p + [-1] * (n - pos)
+    if z >= 18:
+        s, e = rng.randint(0, 6), rng.randint(0, 6)
+    else:
+        s = rng.randint(0, z); e = rng.randint(0, z - s)
+    return [0] * s + [1] * p + [0] * (z - s - e) + [-1] * n + [0] * e
+
+
+def family_lower_bound(ctx, lc, comps, members=6):
+    """delta-max of a composition is at least the delta of every member of the documented family (both replies from the
+    real code; delta itself is decided by C02).  Cheap, so it reaches compositions TLC is not asked about."""
+    for comp in comps:
+        base = arrange(comp, ctx.rng)
+        seq = common.spell(base, ctx.rng)
+        out = common.call(lambda: lc.SP(seq).get_deltaMax(), limit=120)
+        ctx.evaluations += 1
+        if out[0] != "ok" or not common.is_number(out[1]):
+            ctx.violation("deltamax-failed", {"seq": seq, "composition": comp}, actual=out)
+            continue
+        for _ in range(members):
+            mem = common.spell(family_member(comp, ctx.rng), ctx.rng)
+            d = common.call(lambda: lc.SP(mem).get_delta())
+            if d[0] == "ok" and common.is_number(d[1]) and float(d[1]) > float(out[1]) * (1 + 1e-9) + 1e-12:
+                ctx.violation("deltamax-below-family-member", {"seq": seq, "composition": comp, "member": mem},
+                              expected="get_deltaMax() >= get_delta() of every documented arrangement (here %r)" % float(d[1]), actual=float(out[1]))
+                break
